@@ -20,6 +20,8 @@ from pycel.lib.function_helpers import (
 
 _SIZE_MASK = {2: 512, 8: 0x20000000, 16: 0x8000000000}
 _BASE_TO_FUNC = {2: bin, 8: oct, 16: hex}
+_BASE_DIGITS = {2: frozenset('01'), 8: frozenset('01234567'),
+                16: frozenset('0123456789abcdefABCDEF')}
 
 
 def _base2dec(value, base):
@@ -38,6 +40,9 @@ def _base2dec(value, base):
             value = str(int(value))
 
     if isinstance(value, str) and len(value) <= 10:
+        # int() would also accept signs, blanks, underscores and 0b/0o/0x
+        if any(c not in _BASE_DIGITS[base] for c in value):
+            return NUM_ERROR
         try:
             value, mask = int(value, base), _SIZE_MASK[base]
             if value >= 0:
